@@ -327,7 +327,8 @@ var corpus = []string{
 	"SELECT id, CASE WHEN n > 0 THEN 'p' ELSE s END, COALESCE(NULLIF(z, ''), s2), IF(f > 0, f, n) FROM t ORDER BY id",
 }
 
-const chunkSize = 60
+// iterations per workload process (a crash loses at most one chunk)
+var chunkSize = 60
 
 func runC14(seed int64, n int, dir string, args []string) {
 	if os.Getenv("C14_CHILD") == "1" {
@@ -336,6 +337,9 @@ func runC14(seed int64, n int, dir string, args []string) {
 	}
 	// Parent: the workload runs in child processes, one per chunk of iterations, because a panic in one of
 	// csvq's worker goroutines cannot be recovered in-process (it would take the whole stream down).
+	if os.Getenv("VERIF_TIER") == "thorough" {
+		chunkSize = 1000
+	}
 	o := hc.NewOut(dir)
 	evals, crashes, chunks := 0, 0, 0
 	for start, k := 0, 0; start < n; start, k = start+chunkSize, k+1 {
